@@ -23,6 +23,10 @@ impl Id {
     /// Generate a random Id
     pub fn random() -> Id {
         let mut bytes: [u8; 20] = [0; 20];
+        #[cfg(mainline_verif)]
+        if crate::verif::fill(&mut bytes) {
+            return Id(bytes);
+        }
         getrandom::fill(&mut bytes).expect("getrandom");
 
         Id(bytes)
@@ -98,6 +102,10 @@ impl Id {
     /// Create a new Id from an Ipv4 address according to [BEP_0042](http://bittorrent.org/beps/bep_0042.html).
     pub fn from_ipv4(ipv4: Ipv4Addr) -> Id {
         let mut bytes = [0_u8; 21];
+        #[cfg(mainline_verif)]
+        if crate::verif::fill(&mut bytes) {
+            return from_ipv4_and_r(bytes[1..].try_into().expect("infallible"), ipv4, bytes[0]);
+        }
         getrandom::fill(&mut bytes).expect("getrandom");
 
         from_ipv4_and_r(bytes[1..].try_into().expect("infallible"), ipv4, bytes[0])
